@@ -805,6 +805,59 @@ def rt_shapes_grid(first_only=False, count=None, only=None):
                         return fails
                 except Exception:  # noqa: BLE001
                     pass
+    # three and four children (split points must be cumulative), every axis
+    if not only or only in ("Concatenate", "Stack"):
+        for s in ((3,), (2, 3), (2, 3, 2)):
+            for axis in range(-len(s), len(s)):
+                for k in (3, 4):
+                    if only in (None, "Concatenate"):
+                        n += 1
+                        kid_shapes = []
+                        for j in range(k):
+                            sj = list(s)
+                            sj[axis] = s[axis] + j  # unequal sizes along the axis
+                            kid_shapes.append(tuple(sj))
+                        try:
+                            b = B.Concatenate([_ident(t) for t in kid_shapes], axis=axis)
+                            want = jnp.concatenate([jnp.zeros(t) for t in kid_shapes], axis).shape
+                            r = (f"declares shape {tuple(b.shape)}, jnp.concatenate gives {tuple(want)}" if tuple(b.shape) != tuple(want) else _accepts(b))
+                        except Exception as ex:  # noqa: BLE001
+                            r = f"constructor raised {type(ex).__name__}: {str(ex)[:120]}"
+                        if r:
+                            fails.append(dict(what=f"Concatenate of {k} children {kid_shapes} along axis {axis}: {r}", case=dict(cls="Concatenate", shapes=[list(t) for t in kid_shapes], axis=axis)))
+                            if first_only:
+                                return fails
+            for axis in range(-(len(s) + 1), len(s) + 1):
+                if only in (None, "Stack"):
+                    n += 1
+                    try:
+                        b = B.Stack([_ident(s) for _ in range(3)], axis=axis)
+                        want = jnp.stack([jnp.zeros(s)] * 3, axis).shape
+                        r = (f"declares shape {tuple(b.shape)}, jnp.stack gives {tuple(want)}" if tuple(b.shape) != tuple(want) else _accepts(b))
+                    except Exception as ex:  # noqa: BLE001
+                        r = f"constructor raised {type(ex).__name__}: {str(ex)[:120]}"
+                    if r:
+                        fails.append(dict(what=f"Stack of 3 children of shape {s} along axis {axis}: {r}", case=dict(cls="Stack", shape=list(s), axis=axis)))
+                        if first_only:
+                            return fails
+    # Reshape must reject a change of the element count, also for rank-0 targets
+    if not only or only == "Reshape":
+        for inner, target in (((4,), ()), ((2,), ()), ((4,), (3,)), ((2, 3), (5,)), ((2, 3), (2, 2)), ((), (2,))):
+            n += 1
+            try:
+                B.Reshape(_ident(inner), tuple(target))
+                fails.append(dict(what=f"Reshape of a bijection of shape {inner} to {target} (different element count) was accepted", case=dict(cls="Reshape", inner=list(inner), target=list(target))))
+            except Exception:  # noqa: BLE001
+                pass
+        for icond, tcond in (((3,), ()), ((4,), (3,)), ((2, 2), (5,))):
+            n += 1
+            try:
+                B.Reshape(_ident((2,), icond), (2,), tuple(tcond))
+                fails.append(dict(what=f"Reshape of a condition of shape {icond} to {tcond} (different element count) was accepted", case=dict(cls="Reshape", icond=list(icond), tcond=list(tcond))))
+            except Exception:  # noqa: BLE001
+                pass
+        if first_only and fails:
+            return fails
     # Chain: three children (the LAST one incompatible), and declared cond_shape with conditional children in any position
     if not only or only == "Chain":
         for s0, s2 in (((2,), (3,)), ((2, 3), (2, 4)), ((2,), (2, 1)), ((), (1,))):
